@@ -2,6 +2,7 @@
 import re
 from ..core import base_ty, rv_const_bool, strip_ref
 from ..summaries import ENTITY, AliveClass, IndexSinks, entity_of_index
+from . import _identity
 
 EXPLANATION = (
     "Guard-dominance over the MIR call graph. Index sinks are derived by a field-sensitive fix-point from the raw "
@@ -13,7 +14,11 @@ EXPLANATION = (
     "of the same x is deleted from the CFG. R2: in those bodies and in every membership query keyed by a handle (role: one "
     "Entity parameter, asks a bit set contains(index of that handle), answers bool / Option - Storage::contains today) every "
     "construction of a positive result (Some/Ok/true) is guarded the same way. The is_alive class is closed under wrappers by a summary. "
-    "Hard anchors: the ten public handle-taking access paths named by the property must each carry a guarded site."
+    "Hard anchors: the ten public handle-taking access paths named by the property must each carry a guarded site. "
+    "R3 (handles are compared whole - what makes the is_alive guard separate a stale handle from the live one): PartialEq::eq of Entity, Generation and "
+    "ZeroableGeneration compares each field of one operand directly with the same field of the other (anything else is undetermined), and no "
+    "integer cast outside the storages narrows an index parameter, a field of those types or the result of their accessors below 32 bits "
+    "(value-origin through copies and casts only; a value that went through arithmetic is not an identity any more)."
 )
 NOT_DECIDED = ("that Allocator::is_alive itself computes the right answer (C02); behaviour of user-supplied storages; "
                "forging of handles is excluded by the W6 compile-fail witnesses (thorough tier)")
@@ -51,12 +56,45 @@ def run(ctx):
         ctx.exception(sym, why)
     ctx.exception("impl " + CHANGESET + " (accesses to its own inner storage)", CHANGESET_WHY)
     ctx.exception("impl world::entity::Allocator", "the allocator is the definition of aliveness, it holds no components")
+    ctx.rule("C03-R3", "handles are compared whole: equality of Entity / Generation covers every field, no index or generation is narrowed")
     for cfg in configs(ctx.tier):
         facts = ctx.xfacts(cfg)
         run_config(ctx, facts)
+        r3(ctx, facts)
     if True:
         from .. import witness
         witness.run_set(ctx, "C03", ["w6_forge_entity_new", "w6_forge_entity_tuple", "w6_forge_generation"])
+
+
+def r3(ctx, facts):
+    """is_alive(x) is a comparison of generations: it separates a stale handle from the live one only if that comparison looks at
+    the whole generation (and the whole index).  (a) PartialEq::eq of the three identity types compares each field of the
+    one operand with the same field of the other, directly; (b) nowhere outside the storages (C04-R10 has those) is an index
+    or generation cast to fewer than 32 bits."""
+    n = 0
+    for b in facts.all_bodies:
+        if b.trait_item != "std::cmp::PartialEq::eq" or base_ty(b.self_ty or "") not in _identity.ID_TYPES:
+            continue
+        adt = facts.adt(base_ty(b.self_ty))
+        nf = len(adt["variants"][0]["fields"]) if adt and adt.get("variants") else None
+        n += 1
+        pairs = set()
+        for bb, blk in b.blocks.items():
+            for s in blk["stmts"]:
+                if s["rv"]["k"] == "binop" and s["rv"].get("op") == "Eq":
+                    o = [b.operand_origin(x) for x in s["rv"]["ops"]]
+                    pairs.add(tuple(o))
+        for bb, t in b.real_calls():
+            if t["callee"].get("path") == "std::cmp::PartialEq::eq" and len(t["args"]) == 2:
+                pairs.add((b.arg_origin(bb, 0), b.arg_origin(bb, 1)))
+        whole = {x[2] for x, y in pairs if x[0] == "param" and y[0] == "param" and {x[1], y[1]} == {1, 2} and x[2] == y[2] and len(x[2]) == 1}
+        ok = nf is not None and len(whole) == nf
+        ctx.ob("C03-R3", "%s compares every field of the two handles" % b.path, True if ok else "undetermined", b.loc(),
+               "" if ok else "equality of an identity type is not the field-by-field comparison (fields compared directly: %d of %s): whether a stale "
+               "handle can compare equal to a live one depends on what this body computes" % (len(whole), nf))
+    ctx.floor("C03-R3", "PartialEq impls of Entity / Generation / ZeroableGeneration", n, 3)
+    _identity.rule(ctx, facts, "C03-R3", lambda b: not b.path.lstrip("<").startswith(("storage::", "changeset::")), 2,
+                   "a stale handle then passes is_alive() / the generation comparison of a newer occupant of the index")
 
 
 def run_config(ctx, facts, R1="C03-R1", R2="C03-R2", only=None, anchors=None, site_floor=SITE_FLOOR):
